@@ -1,6 +1,6 @@
 (* Non-vacuity for C01: a concrete composed model meeting the theorems' hypotheses. *)
 From Coq Require Import List String Permutation ZArith.
-From PAFC01 Require Import ModelTree Sorting Proofs Proofs2.
+From PAFC01 Require Import ModelTree Sorting Proofs Proofs2 Proofs3.
 Import ListNotations.
 Local Open Scope string_scope.
 Local Open Scope list_scope.
@@ -35,3 +35,9 @@ Example ex_tuple_hyp :
   Permutation (map (fun m : string * (nat * node Z) => fst (snd m)) [("pos_1", (1, NConst 7%Z)); ("pos_0", (0, NPrior 0))])
               (seq 0 2).
 Proof. simpl. apply perm_swap. Qed.
+
+Example ex_wf : wf Z ex.
+Proof.
+  simpl. repeat split; try discriminate;
+    repeat (constructor; [simpl; intuition discriminate|]); constructor.
+Qed.
